@@ -153,7 +153,11 @@ static rc::Gen<std::vector<uint64_t>> gen_par(int routine)
                 if (*g::irange(0, 1)) sub[4] = *rc::gen::elementOf(std::vector<uint64_t>{64, 65, 1024, 1025, 1100});
             }
             /* wide matrices: keep the domain small (TSan cost) */
-            if (sub[4] >= 64 && sub[2] > 4 && sub[2] != nt::SIZE0) { sub[3] -= (sub[2] - 4); sub[2] = 4; if (sub[1] < sub[2]) sub[1] = sub[2]; } if (sub[0] > 2) sub[0] = sub[0] % 3; if (sub[0] == nt::K_EXT && sub[7] == 2) sub[7] = 0; if (sub[0] == nt::K_EXT) sub[3] = std::max(sub[3], sub[2]); if (sub[0] == nt::K_EXT && sub[4] == 0) sub[4] = 1; }
+            if (sub[4] >= 64 && sub[2] > 4 && sub[2] != nt::SIZE0) { sub[3] -= (sub[2] - 4); sub[2] = 4; if (sub[1] < sub[2]) sub[1] = sub[2]; } if (sub[0] > 2) sub[0] = sub[0] % 3; if (sub[0] == nt::K_EXT && sub[7] == 2) sub[7] = 0; if (sub[0] == nt::K_EXT) sub[3] = std::max(sub[3], sub[2]); if (sub[0] == nt::K_EXT && sub[4] == 0) sub[4] = 1;
+        /* real threads under ThreadSanitizer (--mode threads): every region creates its members anew, so the cost of a case is about
+           (column blocks) x (regions per block) x team thread creations; a 1024-column matrix cut into 1024 blocks with a team of 64 took five
+           minutes -- keep blocks x team bounded there (the sequential stand-in and the real runtime keep the full ranges) */
+        if (g_mode == 1 && sub[4] >= 64) { if (team > 8) { team = 2 + team % 7; v[1] = (uint64_t)team; } if (sub[6] > 16) sub[6] = (uint64_t)*rc::gen::elementOf(std::vector<uint64_t>{1, 2, 3, 16}); } }
         else if (routine == 1) { sub = {(uint64_t)*g::irange(0, ps::NVAR - 1), (uint64_t)*g::irange(0, 6), *g::range(0, 20), (uint64_t)*g::irange(1, 3), *g::range(1, 24), 0, *g::uni64()}; }
         else { sub = {(uint64_t)*g::irange(0, 1), *rc::gen::weightedOneOf<uint64_t>({{3, g::range(0, 70)}, {2, g::range(0, 5000)}}), 0, *g::uni64()}; }
         v.insert(v.end(), sub.begin(), sub.end());
